@@ -147,3 +147,25 @@ func ctPushRequestCopyMerge(pr, other *PushRequest) {
 	// "merging for one proxy never alters what another proxy is told": nothing that existed is written
 	verif.Ensures("no-existing-request-written", verif.Forall(func(r *PushRequest) bool { return verif.Fresh(r) || r == nil || requestUntouched(r) }))
 }
+
+// VerifCovers is the statement's "merged request covers both": m carries the union of the changed
+// keys of a and b, is forced if either was, takes b's snapshot when b has one and keeps a's start.
+// a and b are read in the state before the call under contract, m in the current state.
+func VerifCovers(m, a, b *PushRequest) bool {
+	return m != nil &&
+		verif.Forall(func(k ConfigKey) bool {
+			return hasKey(m.ConfigsUpdated, k) == (verif.Old(func() bool { return hasKey(a.ConfigsUpdated, k) }) || verif.Old(func() bool { return hasKey(b.ConfigsUpdated, k) }))
+		}) &&
+		verif.Forall(func(k string) bool {
+			return hasKey(m.AddressesUpdated, k) == (verif.Old(func() bool { return hasKey(a.AddressesUpdated, k) }) || verif.Old(func() bool { return hasKey(b.AddressesUpdated, k) }))
+		}) &&
+		verif.Forall(func(k WaypointReference) bool {
+			return hasKey(m.WaypointsUpdated, k) == (verif.Old(func() bool { return hasKey(a.WaypointsUpdated, k) }) || verif.Old(func() bool { return hasKey(b.WaypointsUpdated, k) }))
+		}) &&
+		m.Forced == (verif.Old(func() bool { return a.Forced }) || verif.Old(func() bool { return b.Forced })) &&
+		(verif.Old(func() *PushContext { return b.Push }) == nil || m.Push == verif.Old(func() *PushContext { return b.Push })) &&
+		m.Start == verif.Old(func() time.Time { return a.Start })
+}
+
+// VerifRequestUntouched is requestUntouched for other packages' contracts.
+func VerifRequestUntouched(r *PushRequest) bool { return requestUntouched(r) }
